@@ -77,8 +77,8 @@ class Run:
         print("[%s %6.1fs]" % (self.prop, time.time() - self.t0), *a, flush=True)
 
     # ---------------------------------------------------------------- Go
-    def gobuild(self, name, race=False, tags="verif"):
-        key = (name, race, tags)
+    def gobuild(self, name, race=False, tags="verif", module="harness"):
+        key = (name, race, tags, module)
         if key in self.built:
             return self.built[key]
         out = os.path.join(self.bin, name + ("-race" if race else "") + ("-" + tags.replace(" ", "-") if tags != "verif" else ""))
@@ -92,7 +92,7 @@ class Run:
         if race:
             cmd.append("-race")
         cmd.append("./cmd/" + name)
-        p = subprocess.run(cmd, cwd=os.path.join(VERIF, "harness"), env=goenv(),
+        p = subprocess.run(cmd, cwd=os.path.join(VERIF, module), env=goenv(),
                            stdout=subprocess.PIPE, stderr=subprocess.STDOUT, text=True)
         if p.returncode != 0:
             raise Inconclusive("go build %s failed:\n%s" % (name, p.stdout[-4000:]))
